@@ -5,7 +5,7 @@
 (* The parser accepts iff every gate is ok; a rejected input is never served.  *)
 EXTENDS Integers, Sequences, FiniteSets, TLC
 
-Parsers == {"qcow2", "vhdx", "vdi", "hds", "hdd", "vmdk-sparse", "hyperv", "envelope", "keystore", "keysafe"}
+Parsers == {"qcow2", "vhdx", "vdi", "hds", "hdd", "vmdk-sparse", "vmdk-delta", "hyperv", "envelope", "keystore", "keysafe"}
 
 GatesOf(p) ==
   CASE p = "qcow2"    -> <<"magic", "version", "cluster_bits", "subcluster_size", "crypt_method", "compression", "data_file", "backing_file">>
@@ -15,6 +15,7 @@ GatesOf(p) ==
     [] p = "hds"      -> <<"signature">>
     [] p = "hdd"      -> <<"descriptor_present", "image_type", "parent_image_type">>   \* image types of every snapshot in the chain
     [] p = "vmdk-sparse" -> <<"magic", "footer_magic">>                                 \* stream-optimised extents carry a second header at the end
+    [] p = "vmdk-delta" -> <<"extent_present", "parent_present">>      \* a delta disk: the files its descriptor names, the parent it hints at
     [] p = "hyperv"   -> <<"header_signature", "version", "replay_log_signature", "object_table_signature", "chained_object_table_signature",
                            "key_table_signature", "other_key_table_signature">>   \* every listed key table: superseded copies and further tables too
     [] p = "envelope" -> <<"magic", "version", "attr_keyinfo", "attr_ciphername", "attr_keyhash", "cipher", "aead_footer_version">>
